@@ -104,8 +104,11 @@ def run_batch(seed, batch, tier):
                 continue
 
             def fails(c, _status=status):
+                # a candidate in which a trigger monitor fires is an execution the check does not judge: shrinking
+                # must not drift there (dropping the filter that kept nulls away from a text concatenation, ...)
+                monitors.OBS.reset_case()
                 s, _ = compare_case(c, sq, want_detail=False)
-                return s == _status
+                return s == _status and not (set(monitors.OBS.triggers) - {"sql_zero_using"})
 
             small = diff.shrink(case, fails)
             s2, d2 = compare_case(small, sq)
